@@ -11,7 +11,54 @@ CHECKER = """(fun (c : ctor) (_ : cdb_spec) => match lookup (c_name c) xfer_spec
   | _ => false end)"""
 
 
+def param_list_probes(seed, n_each=40):
+    """composed parameter lists (TransportID lists, descriptor lists, mode pages): PARAMETER LIST LENGTH in the CDB vs len(data-out)"""
+    res = vlib.run_impl("corr/params_impl.py", dict(seed=seed, n_each=n_each), timeout=600)
+    hits = []
+    for r in res:
+        if r.get("why") and "PARAMETER LIST LENGTH" in r["why"]:
+            hits.append(dict(kind="c03-params", id="%s: %s" % (r["kind"], "the CDB's PARAMETER LIST LENGTH differs from the data-out buffer"),
+                             seed=seed, n_each=n_each, index=r["i"], observed="%s: %s" % (r["kind"], r["why"]), probe=dict(key=r["kind"])))
+            break
+    return hits, len(res)
+
+
+def xfer_probes():
+    """what the bindings are handed for given buffers: iSCSI direction / expected transfer length follow the buffer LENGTHS
+    (an all-zero payload is still a payload), SG_IO gets both buffers as they are"""
+    import os
+    cases = []
+    for out in ([], [0], [0] * 8, [0] * 512, [1], [0, 0, 7], [255] * 16):
+        for inn in (0, 1, 96):
+            if out and inn:
+                continue
+            cases.append(dict(out=out, inn=inn))
+    res = vlib.run_impl("corr/xfer_impl.py", cases, extra_path=[os.path.join(vlib.TOOLS, "stubs")], timeout=300)
+    hits = []
+    for c, r in zip(cases, res):
+        lo, li = len(c["out"]), c["inn"]
+        want = dict(dir=2, xferlen=lo, out_len=lo, in_len=li) if lo else dict(dir=1, xferlen=li, out_len=0, in_len=li) if li else dict(dir=0, xferlen=0, out_len=0, in_len=0)
+        if r["iscsi"] != want:
+            hits.append(dict(kind="c03-xfer", id="iscsi: direction / expected transfer length do not follow the buffer lengths", case=c,
+                             observed="ISCSIDevice.execute with %d data-out bytes %s and %d data-in bytes hands the binding %s, expected %s" % (
+                                 lo, c["out"][:4], li, r["iscsi"], want), probe=dict(key="ISCSIDevice.execute")))
+            break
+        if r["sgio"] != dict(out_len=lo, in_len=li):
+            hits.append(dict(kind="c03-xfer", id="sgio: the buffers handed to sgio.execute are not the command's buffers", case=c,
+                             observed="SCSIDevice.execute hands sgio.execute %s for buffers of %d / %d bytes" % (r["sgio"], lo, li), probe=dict(key="SCSIDevice.execute")))
+            break
+    return hits, len(cases)
+
+
 def replay(obj):
+    if obj.get("kind") == "c03-xfer":
+        hits, _ = xfer_probes()
+        return not hits, "on the implementation: %s" % (hits[0]["observed"] if hits else "direction and lengths follow the buffer lengths")
+    if obj.get("kind") == "c03-params":
+        res = vlib.run_impl("corr/params_impl.py", dict(seed=obj["seed"], n_each=obj["n_each"]), timeout=600)
+        r = res[obj["index"]]
+        bad = bool(r.get("why")) and "PARAMETER LIST LENGTH" in r["why"]
+        return not bad, "on the implementation: %s" % (r.get("why") or "PARAMETER LIST LENGTH equals the data-out length")
     if obj.get("kind") != "c03-probe":
         return False, "replay names a broken obligation, not an input: %s" % obj.get("what")
     return ctor_oracle.replay_c03(obj)
@@ -39,6 +86,12 @@ def run(rep, tier, seed, summary):
     if not hits and classes:
         hits, n2 = ctor_oracle.search_c03(summary, seed, classes=None)
         nprobes += n2
+    if not hits:
+        hits, n3 = param_list_probes(seed)
+        nprobes += n3
+    if not hits:
+        hits, n4 = xfer_probes()
+        nprobes += n4
     rep.extra["implementation_probes"] = nprobes
     new = [h for h in hits if h["id"] not in known]
     for h in hits:
